@@ -140,7 +140,15 @@ def rule_k1(ctx) -> None:
                         hashed.add(x.attr)
                 elif isinstance(x, ast.Name) and x.id in trycache.params:
                     if x.id == trycache.params[-1] or x.id == "batch":
-                        batch_in = True
+                        # the rows themselves must be hashed, not a digest such as len(batch)
+                        cur, ok_flow = x, True
+                        par = getattr(cur, "_parent", None)
+                        while par is not None and par is not hc:
+                            if isinstance(par, ast.Call) and unparse(par.func).split(".")[-1] not in ("list", "tuple", "sorted", "deepcopy", "copy", "dumps"):
+                                ok_flow = False
+                            cur, par = par, getattr(par, "_parent", None)
+                        if ok_flow:
+                            batch_in = True
     ctx.instance("C12-K1", "hash payload contains the batch rows", trycache.loc(hash_calls[0]), ok=batch_in)
     if not batch_in:
         ctx.finding("C12-K1", "Balancer:cache-key:batch", trycache.loc(hash_calls[0]), "the batch rows do not flow into the cache key")
